@@ -165,6 +165,18 @@ def scenarios(algs):
         out.append(('node-fails', [('orgall', None, 'all'), ('pump', 'success-new', i)]))
         out.append(('node-invalid-rerun', [('orgall', 3, 'all'), ('pump', 'success-new', i),
                                            ('org', i, None, [1]), ('pump', 'success-new', None)]))
+    # a parent is re-run for two targets while its consumer executes one of them; the parent's
+    # other target succeeds with new values, then the shared target fails, all between two ticks
+    edges = [(j, c) for c in range(n) for (j, _v) in algs[c]['inputs']
+             if algs[c]['kind'] == 'task' and algs[j]['kind'] == 'task'][:4]
+    for p_, c in edges:
+        out.append(('parent-mixed-outcomes-while-child-executes',
+                    [('org', c, None, [1]), ('disp',), ('org', p_, None, [1, 2]), ('disp',),
+                     ('replyu', p_, 2, 'success-new'), ('replyu', p_, 1, 'failure'), ('disp',),
+                     ('replyu', c, 2, 'success'), ('replyu', c, 1, 'success-new'), ('pump', 'success', None)]))
+    out.append(('dbfault-first-job', [('orgall', None, 'all'), ('dbfail',), ('disp',), ('disp',),
+                                      ('pump', 'success', None)]))
+    out.append(('waiters', [('orgall', None, 'all'), ('waiters',), ('pump', 'success', None), ('joinwaiters',)]))
     # a database fault inside dispatch (db.next raises): monitors only
     roots = [i for i in range(n) if not up[i]]
     for r_ in roots[:2]:
@@ -195,6 +207,18 @@ class Run:
         self.runid_of = {}
         self.tainted = False    # a worker broke the wire protocol: monitors off, correspondence on
         self.no_model = False   # a database fault was injected: monitors on, correspondence off
+        self.put = set()        # units for which farm._put queued a task message since their release
+        self.fault_tick = False
+        self.waiter_threads = []
+        F = env.F
+        orig_put = F._put.__wrapped__ if hasattr(F._put, '__wrapped__') else F._put
+
+        def rec_put(job, runid, target, where):
+            self.put.add((job.tag, target if target else ALL))
+            return orig_put(job=job, runid=runid, target=target, where=where)
+
+        rec_put.__wrapped__ = orig_put
+        F._put = rec_put
 
     # ---- helpers
     def hit(self, prop, sig, what):
@@ -258,6 +282,7 @@ class Run:
         env = self.env
         before = env.snapshot()
         active = env.fsm.active and not env.S.is_paused()
+        self.fault_tick = bool(getattr(env, 'fail_next_db', False))
         released = env.dispatch()
         self.trace.append(['disp'])
         self.model_ops.append(['disp'])
@@ -314,6 +339,15 @@ class Run:
         self.inflight.extend(released)
         for tag, t in released:
             self.runid_of[(tag, t)] = None
+        # ---- C03: a released unit stays queued for a worker (its task message exists) unless this very
+        # tick hit a database fault (then the next tick retries it)
+        if active and not self.fault_tick:
+            for unit in self.inflight:
+                if unit not in self.put:
+                    self.hit('C03', 'released-not-queued',
+                             f'{unit[0]}[{unit[1]}] was released (todo -> doing) but no task message was ever queued for it')
+                    self.hit('C04', 'released-never-runs',
+                             f'{unit[0]}[{unit[1]}] was released but never reaches a worker: the pipeline cannot quiesce')
         self.after(sorted([self.idx[x], self.tnum[t]] for x, t in released))
         return released
 
@@ -326,6 +360,7 @@ class Run:
         if nonempty:
             values = [(v, v in news) for v in self.vals_of(tag)]
         was_inflight = (tag, t) in self.inflight
+        self.put.discard((tag, t))
         n_chron = env.reply(tag, t, outcome, rid, values)
         after = env.snapshot()
         self.trace.append(['reply', tag, t, outcome, sorted(news), nonempty])
@@ -450,12 +485,47 @@ class Run:
             if not self.inflight and not released:
                 return
             for (x, t) in list(self.inflight):
+                if (x, t) not in self.put:
+                    continue  # no task message exists yet: no worker can answer it
                 if fail_node is not None and self.idx[x] == fail_node:
                     self.do_reply(x, t, 'failure' if policy != 'invalid' else 'invalid', [])
                 elif policy == 'success-new':
                     self.do_reply(x, t, 'success', self.vals_of(x))
                 else:
                     self.do_reply(x, t, 'success', [])
+
+    def start_waiters(self):
+        """the real FSM poll loops (is_todo_done / is_doing_done / is_crew_done) on threads, started
+        while work is still queued; they must return once the pipeline is idle"""
+        import threading
+        import types as _t
+
+        import dawgie.pl.state as state
+
+        if not hasattr(state.time, '_verif_fast'):
+            state.time = _t.SimpleNamespace(sleep=lambda _s: __import__('time').sleep(0.002), _verif_fast=True)
+        self.waiter_stop = False
+        fake = _t.SimpleNamespace(
+            waiting_on_todo=lambda: not self.waiter_stop, waiting_on_doing=lambda: not self.waiter_stop,
+            waiting_on_crew=lambda: not self.waiter_stop)
+        for name in ('is_todo_done', 'is_doing_done', 'is_crew_done'):
+            fn = getattr(state.FSM, name)
+            th = threading.Thread(target=fn, args=(fake,), daemon=True)
+            th.start()
+            self.waiter_threads.append((name, th))
+
+    def join_waiters(self):
+        snap = self.env.snapshot()
+        idle = not self.inflight and all(not n['todo'] for n in snap['nodes'].values())
+        for name, th in self.waiter_threads:
+            th.join(20.0 if idle else 0.01)   # generous: the machine may be loaded
+            if idle and th.is_alive():
+                self.hit('C04', 'waiter-not-satisfied',
+                         f'nothing is pending or executing but the waiter loop FSM.{name} keeps waiting')
+        self.waiter_stop = True
+        for _name, th in self.waiter_threads:
+            th.join(1.0)
+        self.waiter_threads = []
 
     def drain(self, limit):
         """C04 quiescence: always-answering workers, no more external events"""
@@ -469,7 +539,8 @@ class Run:
                 return True
             self.do_dispatch()
             for (x, t) in list(self.inflight):
-                self.do_reply(x, t, 'success', [])
+                if (x, t) in self.put:
+                    self.do_reply(x, t, 'success', [])
             steps += 1
         snap = env.snapshot()
         if self.inflight or any(n['todo'] for n in snap['nodes'].values()):
@@ -558,6 +629,20 @@ def run_history(env, res, want, algs, ops, r, lines, pending, tag):
             run.do_organize(list(env.tags), op[1], tg)
         elif kind == 'pump':
             run.pump(op[1], op[2], 4 * len(env.tags) * (len(env.targets) + 2) + 8)
+        elif kind == 'replyu':
+            x = env.tags[op[1]]
+            t = env.targets[op[2] - 1] if 0 < op[2] <= len(env.targets) else None
+            if t is not None and (x, t) in run.inflight and (x, t) in run.put:
+                if op[3] == 'success-new':
+                    run.do_reply(x, t, 'success', run.vals_of(x))
+                else:
+                    run.do_reply(x, t, op[3], [])
+        elif kind == 'waiters':
+            if 'C04' in want:
+                run.start_waiters()
+        elif kind == 'joinwaiters':
+            if 'C04' in want:
+                run.join_waiters()
         elif kind == 'dbfail':
             run.no_model = True
             env.fail_next_db = True
